@@ -9,7 +9,7 @@ Decided clauses (the bit-packing round trip of SpanId, line/column values and to
   R3  trace cropping slices are guarded by the length test
 """
 from . import kwalk, cg, prov, cfg
-from .facts import callee_name
+from .facts import callee_name, AnchorMissing as facts_AnchorMissing
 
 EXPLANATION = (
     "Static analysis of the front-end's MIR: each render function is walked once per variant of the error "
@@ -470,12 +470,55 @@ def rule_r5(F, rep):
     rep.floor(R, n, 2, "packed span-id fields")
 
 
+def rule_r6(F, rep):
+    R = rep.rule("C16.R6", "an interned span's identifier is the position of its triple in the table: wherever the span manager "
+                 "both appends to a table (`Vec::push`) and takes the table's length for an index in the same body, the length "
+                 "is taken before the append (on no path does the append come first). An index taken after the push is one past "
+                 "the slot that holds the triple: get_span then returns the next interned span's coordinates, or panics on the "
+                 "last one — only spans beyond the inline encoding (len >= 2^25 or offset >= 2^38) are interned, so no test sees it")
+    SM = "rsjsonnet_lang::span::SpanManager"
+    n = 0
+    fns = [f for f in F.fn_list if f.crate.name == "rsjsonnet_lang" and (f.q.startswith("<%s>::" % SM))]
+    if not fns:
+        raise facts_AnchorMissing("SpanManager methods")
+    for fn in fns:
+        body = fn.body
+        pushes, lens = [], []
+        for bb, t in body.calls():
+            nm = callee_name(t) or ""
+            if nm == "<alloc::vec::Vec>::push":
+                pushes.append((bb, t))
+            elif nm == "<alloc::vec::Vec>::len":
+                lens.append((bb, t))
+        if not pushes or not lens:
+            continue
+        rep.fn(fn)
+        succ = body.succ_map()
+        for pbb, pt in pushes:
+            pty = body.ty(pt["xs"][0]["t"])["s"] if "t" in pt["xs"][0] else "?"
+            after = cfg.reachable(succ, [pt["t"]] if pt["t"] is not None else [])
+            for lbb, lt in lens:
+                lty = body.ty(lt["xs"][0]["t"])["s"] if "t" in lt["xs"][0] else "?"
+                if pty.replace("&mut ", "&") != lty.replace("&mut ", "&"):
+                    continue
+                n += 1
+                ok = lbb not in after
+                rep.ob(R, "%s|len-before-push" % fn.q.rsplit("::", 2)[-1] if "{closure" not in fn.q else "%s|len-before-push" % fn.q.split("SpanManager>::")[-1], ok,
+                       {"function": fn.q, "table": lty})
+                if not ok:
+                    rep.violation(R, "%s|index-after-push" % fn.q, "%s takes the length of %s after appending to it and uses it as the "
+                                  "new entry's index: the identifier points one past the slot of the span just interned"
+                                  % (fn.q.split("SpanManager>::")[-1], lty), body.span(lt["sp"]))
+    rep.floor(R, n, 1, "append / length pairs on the span manager's tables")
+
+
 def run(F, rep, tier):
     rep.attempt(rule_r1, F, rep)
     rep.attempt(rule_r2, F, rep)
     rep.attempt(rule_r3, F, rep)
     rep.attempt(rule_r4, F, rep)
     rep.attempt(rule_r5, F, rep)
+    rep.attempt(rule_r6, F, rep)
     from . import c14
     rep.attempt(c14.rule_r8, F, rep)      # error spans end at the lexer cursor (inside the source)
     rep.assume("the SpanId bit-packing round trip, line/column computation and rendering inside `sourceannot` are not decided")
